@@ -3,9 +3,7 @@
 import json, os, sys, importlib
 V = os.path.dirname(os.path.dirname(os.path.abspath(__file__)))
 sys.path.insert(0, V)
-NA = {
- 'C06': "Not statically decidable: the property quantifies over the number of simultaneously runnable tasks and the length of wake-up chains within one instant; what bounds them is tokio's per-turn task budget inside the dependency, not a construct in des's source. No clause of des's code has a truth value that implies or refutes it (DESIGN.md §4 C06/§6).",
-}
+NA = {}
 TECH = {}
 checks = []
 na = []
